@@ -235,10 +235,16 @@ def run_impl(spec, chunks, progs, peer=DEFAULT_PEER, structured=None):
                 break
             if prev is not None:
                 preq, rb = prev
-                out += enc_headers(rb.drained[0]) + [rb.drained[1]]
-                if structured is not None:
-                    structured[-1]["trailers"] = list(rb.drained[0])
-                    structured[-1]["drained_left"] = rb.drained[1]
+                if rb.drained is None:
+                    # the parser went on to the next request without reading the previous body to its end
+                    out += [-7]
+                    if structured is not None:
+                        structured[-1]["not_drained"] = True
+                else:
+                    out += enc_headers(rb.drained[0]) + [rb.drained[1]]
+                    if structured is not None:
+                        structured[-1]["trailers"] = list(rb.drained[0])
+                        structured[-1]["drained_left"] = rb.drained[1]
             out += enc_request(req)
             rec_req = {"method": req.method, "uri": req.uri, "version": req.version, "headers": list(req.headers),
                        "calls": [], "should_close": None}
